@@ -71,19 +71,12 @@ theorem compilable_meets_EmitOK (root : Node) (hwf : NodeWF root = true) (h : un
 
 /-- Finding `uncompilable-ptr-bytes-alone` (repaired in /repo): `type T struct { P *[]byte }` — the model of the
 emitter at the pinned commit rejects it (missing `bytes` import), the model of the emitter as it is accepts it;
-on types that also hold a plain `[]byte` the two agree. -/
+(the rules of the compilability model that belong to repaired defects are the fields of `EmitRules`). -/
 def soloPtrBytes : Node :=
   .struct { typn := "T" } [.slice { typn := "[]byte", typu := "[]byte", name := "P", ptr := true, hasb := true, hasc := true }
     (.basic { typn := "byte", typu := "byte" })]
 theorem original_rejects_ptr_bytes_alone :
     uncompilableOriginal soloPtrBytes = some "ptr-bytes-alone" ∧ uncompilable soloPtrBytes = none := by decide
-theorem ptr_bytes_rule_only (vr : Bool) (root : Node) (h : uncompilableWith true vr root = none) :
-    uncompilableWith false vr root = none := by
-  unfold uncompilableWith at *
-  cases hs : uncompilableShape vr root with
-  | none => simp
-  | some c => simp [hs] at h
-
 /-- Finding `uncompilable-ptr-scalar-field-in-struct-value` (repaired in /repo as a side effect of `fix: DeepEqual
 tests the nil-ness of pointer-to-scalar fields on the field, not on its parent`): `type In struct { P *int32 };
 type T struct { F In }` — DeepEqual of the pinned commit emitted `lx == nil` on the struct value `F`; the emitter
